@@ -1,4 +1,4 @@
-(* Proofs/ReduceGcxsP.v — reduce_den for GCXS arrays (C03), on the domain gcxs_axes_ok:
+(* Proofs/ReduceGcxsP.v — reduce_den for GCXS arrays (C03):
    the decision structure of GCXS._reduce_calc around the grouped reduction proved in ReduceP.v. *)
 From Coq Require Import ZArith List Bool Lia ZifyBool Permutation Sorting.Sorted.
 From Verif Require Import Py PyExt PyReduce Shape COO COOP GCXS G_reduce S_reduce NpReduce Reduce
@@ -445,10 +445,9 @@ Section GMain.
       rewrite <- Hg. rewrite !np_cells_all. symmetry. exact HA.
   Qed.
 
-  (* reduce_den for GCXS on the domain gcxs_axes_ok *)
+  (* reduce_den for GCXS, every axis argument *)
   Theorem gcxs_reduce_den_proof (g : gcxs V) ax (kd : bool) :
     gcxs_ok V g -> shape_ok (g_shape g) -> g_shape g <> [] ->
-    (forall nax, norm_axes (zlen (g_shape g)) ax = Ok nax -> gcxs_axes_ok nax = true) ->
     match gcxs_reduce V veqb op cast sup ident ax kd g with
     | Ok r =>
       exists osh gg, np_reduce ax kd (g_shape g) (gden g) = Ok (osh, gg) /\
@@ -460,7 +459,7 @@ Section GMain.
        \/ admissible V veqb op cast sup (g_fill g) = false)
     end.
   Proof.
-    intros Hg Hok Hne Hdom.
+    intros Hg Hok Hne.
     destruct (gcxs_to_coo_spec V g Hg) as [Hcan [Hsh [Hfill Hden]]].
     set (x := gcxs_to_coo V g) in *.
     (* it suffices to prove the statement for the dense meaning of x *)
@@ -487,16 +486,38 @@ Section GMain.
     destruct (norm_axes n ax) as [nax|e] eqn:En.
     2:{ cbn [bind]. destruct (norm_axes_raise _ _ _ En) as [-> Hnp]. split; [reflexivity|]. left.
         unfold NpReduce.np_reduce. rewrite <- Hn, Hnp. reflexivity. }
-    cbn [bind]. specialize (Hdom nax eq_refl). unfold gcxs_axes_ok in Hdom.
-    apply andb_true_iff in Hdom. destruct Hdom as [Hd1 Hd2].
+    cbn [bind].
     destruct (admissible V veqb op cast sup f) eqn:Hadm; cbn [negb bind].
     2:{ split; [reflexivity|right; reflexivity]. }
     rewrite <- Hfill in Hadm.
     pose proof (norm_axes_spec _ _ _ En) as Hs.
     destruct nax as [l|].
     - (* a tuple *)
-      destruct Hs as [Hax [Hnp _]]. cbn in Hd2. apply nodupb_NoDup in Hd2. specialize (Hnp Hd2).
-      destruct l as [|a0 l0]; [discriminate|]. set (l := a0 :: l0) in *.
+      destruct Hs as [Hax [Hnp Hnp']].
+      destruct (nodupb l) eqn:Hd2; cbn [negb].
+      2:{ split; [reflexivity|]. left. unfold NpReduce.np_reduce. rewrite <- Hn.
+          rewrite Hnp' by (intros H; apply nodupb_NoDup in H; congruence). reflexivity. }
+      apply nodupb_NoDup in Hd2. specialize (Hnp Hd2).
+      destruct l as [|a0 l0].
+      { (* the empty tuple: through COO *)
+        assert (Eax : ax = AxTuple []).
+        { destruct ax as [|a|l]; cbn in En.
+          - discriminate.
+          - destruct (norm_axis1 n a); cbn in En; discriminate.
+          - destruct l as [|a l]; [reflexivity|]. cbn in En.
+            destruct (norm_axis1 n a); cbn in En; [|discriminate].
+            destruct (map_res (norm_axis1 n) l); cbn in En; discriminate. }
+        subst ax.
+        pose proof (reduce_den_proof V veqb veqb_eq op op_assoc op_comm cast cast_op sup ident sup_one sup_succ
+                      x (AxTuple []) kd Hcan Hok) as Hred.
+        rewrite Hsh in Hred. fold sh in Hred.
+        match goal with
+        | |- match ?E with Ok _ => _ | Raise _ => _ end =>
+          change E with (reduce_coo V veqb op cast sup ident (AxTuple []) kd x)
+        end.
+        destruct (reduce_coo V veqb op cast sup ident (AxTuple []) kd x) as [r|e]; [exact Hred|].
+        destruct Hred as [-> [H|H]]; split; auto. exfalso. congruence. }
+      set (l := a0 :: l0) in *.
       destruct (zlist_eqb (zsort l) (zrange n)) eqn:Efull.
       + apply zlist_eqb_eq in Efull. apply zsort_full_iff in Efull. apply perm_zrange_is_perm in Efull.
         rewrite <- Hsh in *.
@@ -545,16 +566,21 @@ Proof.
   rewrite (head_z_eq m Hm).
   destruct (head_generic Z Z.eqb (op_z m) (ufunc_cast m) (sup_z m) (zlen (g_shape g)) (g_fill g) ax) as [nax|e];
     cbn [bind]; [|reflexivity].
-  destruct nax as [[|a0 l0]|]; try reflexivity.
-  - destruct (zlist_eqb (zsort (a0 :: l0)) (zrange (zlen (g_shape g)))).
-    + destruct (coo_reshape Z [size (g_shape g)] (gcxs_to_coo Z g)) as [x1|e]; cbn [bind]; [|reflexivity].
-      change (reduce_coo_with Z Z.eqb (op_z m) (ufunc_cast m) (head_z m) (fix_z m) (rfill_z m) AxNone kd x1)
-        with (reduce_coo_z m AxNone kd x1).
+  destruct nax as [l|].
+  - destruct (nodupb l); cbn [negb]; [|reflexivity].
+    destruct l as [|a0 l0].
+    + change (reduce_coo_with Z Z.eqb (op_z m) (ufunc_cast m) (head_z m) (fix_z m) (rfill_z m) (AxTuple []) kd (gcxs_to_coo Z g))
+        with (reduce_coo_z m (AxTuple []) kd (gcxs_to_coo Z g)).
       rewrite (reduce_coo_z_eq m Hm). reflexivity.
-    + destruct (kept_axes (zlen (g_shape g)) (a0 :: l0)) as [|c0 cs]; [reflexivity|].
-      destruct (coo_reduce_calc Z (op_z m) (ufunc_cast m) _ (gcxs_to_coo Z g)) as [k|e]; cbn [bind]; [|reflexivity].
-      apply (tail_z_eq m Hm).
-  - cbn [bind].
+    + destruct (zlist_eqb (zsort (a0 :: l0)) (zrange (zlen (g_shape g)))).
+      * destruct (coo_reshape Z [size (g_shape g)] (gcxs_to_coo Z g)) as [x1|e]; cbn [bind]; [|reflexivity].
+        change (reduce_coo_with Z Z.eqb (op_z m) (ufunc_cast m) (head_z m) (fix_z m) (rfill_z m) AxNone kd x1)
+          with (reduce_coo_z m AxNone kd x1).
+        rewrite (reduce_coo_z_eq m Hm). reflexivity.
+      * destruct (kept_axes (zlen (g_shape g)) (a0 :: l0)) as [|c0 cs]; [reflexivity|].
+        destruct (coo_reduce_calc Z (op_z m) (ufunc_cast m) _ (gcxs_to_coo Z g)) as [k|e]; cbn [bind]; [|reflexivity].
+        apply (tail_z_eq m Hm).
+  - cbn [negb bind].
     destruct (coo_reshape Z [size (g_shape g)] (gcxs_to_coo Z g)) as [x1|e]; cbn [bind]; [|reflexivity].
     change (reduce_coo_with Z Z.eqb (op_z m) (ufunc_cast m) (head_z m) (fix_z m) (rfill_z m) AxNone kd x1)
       with (reduce_coo_z m AxNone kd x1).
@@ -563,7 +589,6 @@ Qed.
 
 Theorem gcxs_reduce_den_z_proof m : valid_code m -> forall (g : gcxs Z) ax (kd : bool),
   gcxs_ok Z g -> shape_ok (g_shape g) -> g_shape g <> [] ->
-  (forall nax, norm_axes (zlen (g_shape g)) ax = Ok nax -> gcxs_axes_ok nax = true) ->
   match gcxs_reduce_z m ax kd g with
   | Ok r =>
     exists osh gg,
@@ -576,7 +601,7 @@ Theorem gcxs_reduce_den_z_proof m : valid_code m -> forall (g : gcxs Z) ax (kd :
      \/ adm_z m (g_fill g) = false)
   end.
 Proof.
-  intros Hm g ax kd Hg Hok Hne Hdom. rewrite (gcxs_reduce_z_eq m Hm).
+  intros Hm g ax kd Hg Hok Hne. rewrite (gcxs_reduce_z_eq m Hm).
   apply (gcxs_reduce_den_proof Z Z.eqb Z.eqb_eq (op_z m) (op_z_assoc m Hm) (op_z_comm m Hm) (ufunc_cast m)
            (cast_z_op m Hm) (sup_z m) (ufunc_ident m)); try assumption.
   - intros s f. apply sup_z_one.
